@@ -57,6 +57,18 @@ def r1_signature_gate(ctx):
             wo = body.reachable(0, removed=[abi])
             r.check(not any(b in wo for b in somes), "some-after-loop", "Some(..) is reachable only after every signature was checked", "Some(..) is reachable without checking the signatures", body.where(abi))
             return
+    if not loops:
+        # the verification used as a FILTER: `proof.iter().filter(|(k, s)| k.verify(h, s))` keeps the entries that verify and drops the others — an invalid signature is
+        # then ignored instead of voiding the proof ("every signature in the proof must be valid")
+        for c in [n for n in ctx.prog.all_nested(body) if n is not body]:
+            if not q.calls_to(c, "Ed25519PK::verify"):
+                continue
+            for b2 in ctx.prog.all_nested(body):
+                for bi, e in q.call_exprs(b2, "Iterator::filter", "Iterator::filter_map", "Iterator::take_while", "Iterator::skip_while"):
+                    if len(e[2]) > 1 and mir.strip(e[2][1])[0] == "closure" and mir.strip(e[2][1])[1] == c.nname:
+                        r.violation("verify/false=>none", "the signature verification is the predicate of %s over the proof's entries: an entry whose signature does not verify is left out of the tally "
+                                    "instead of voiding the proof — a proof carrying a valid quorum and any number of garbage entries confirms" % e[1].split("::")[-1], b2.where(bi))
+                        return
     r.check(bool(loops), "loop", "loops over the proof", "confirm has no loop over the proof entries")
     if not loops:
         return
